@@ -49,7 +49,7 @@ def needs(sid):
 def main():
     ids = sys.argv[1:] or sorted(os.listdir(SEEDED))
     ids = [i for i in ids if os.path.exists(os.path.join(SEEDED, i, "patch.diff"))]
-    with cf.ThreadPoolExecutor(max_workers=2) as ex:
+    with cf.ThreadPoolExecutor(max_workers=3) as ex:
         metas = list(ex.map(test, ids))
     for m in metas:
         m["what_it_breaks_and_needs"] = needs(m["seed"])
